@@ -294,7 +294,10 @@ def native(locales, cases):
     replay.setup_crate(d, body, router=True)
     env = dict(os.environ, CARGO_NET_OFFLINE="true", CARGO_TARGET_DIR=replay.TARGET)
     import subprocess
-    p = subprocess.run(["cargo", "run", "--quiet"], cwd=replay.CRATE, env=env, capture_output=True, text=True, timeout=1800)
+    try:
+        p = subprocess.run(["cargo", "run", "--quiet"], cwd=replay.CRATE, env=env, capture_output=True, text=True, timeout=1800)
+    finally:
+        replay.unlock()
     if p.returncode != 0:
         raise replay.ReplayError(p.stderr[-2000:])
     out = []
